@@ -143,7 +143,9 @@ def render_enum(name, variants, derives, generics=""):
         if v["skip"]:
             attrs.append("#[codec(skip)]")
         if v["index"] is not None:
-            attrs.append("#[codec(index = %d)]" % v["index"])
+            # the literal in any of the spellings Rust allows for an integer
+            lit = {0: "%d", 1: "0x%x", 2: "%du8" if v["index"] < 256 else "%d", 3: "0b%s" % bin(v["index"])[2:] if v["index"] < 256 else "%d", 4: "0o%o"}.get(v.get("lit", 0), "%d")
+            attrs.append("#[codec(index = %s)]" % (lit % v["index"] if "%" in lit else lit))
         if v.get("rev"):
             # the separate attributes in the other order (a merged `#[codec(index = N, skip)]` is
             # rejected by the derive)
